@@ -124,6 +124,9 @@ func StartKeygen(group curve.Curve, receiver bool, selfID, otherID party.ID, sec
 		}
 
 		refresh := true
+		// every session started from this function draws its own share: the captured argument must
+		// stay what the caller passed, or a second session (a retry) would run as a refresh without a key
+		secretShare := secretShare
 		if secretShare == nil && public == nil {
 			secretShare = sample.Scalar(rand.Reader, group)
 			refresh = false
